@@ -8,7 +8,7 @@ Local Open Scope N_scope.
 
 Definition cls_code (c : option cls) : N :=
   match c with
-  | None => 0 | Some CUnknownKey => 6 | Some CTextAtom => 8
+  | None => 0 | Some CUnknownKey => 6 | Some CSentDateTab => 8
   | Some CQuotedSpace => 11
   end.
 
